@@ -145,11 +145,27 @@ func genTags(tier string, seed uint64) {
 			}
 		}
 	}
+	// several values of ONE tagged type that holds maps, side by side in untyped containers: each is built afresh
+	{
+		tm := tid(reflect.TypeOf(TwoMaps{}))
+		sl := tid(reflect.TypeOf([]interface{}{}))
+		mp := tid(reflect.TypeOf(map[string]interface{}{}))
+		vs := []string{"S(M{s61=i1},M{s61=i2},n)", "S(M{s61=i3,s62=i4},M{s62=i5},M{s7a=i6})", "S(n,M{s61=i7},n)", "S(M{s61=i8},n,M{s61=i9})"}
+		for _, aid := range []int{2, 3} {
+			for i := range vs {
+				for j := range vs {
+					emit("roundtrip cbor %d %d nil - [I%d:%s,I%d:%s]", aid, sl, tm, vs[i], tm, vs[j])
+					emit("roundtrip cbor %d %d nil - [I%d:%s,I%d:%s,I%d:%s]", aid, sl, tm, vs[i], tm, vs[j], tm, vs[i])
+					emit("roundtrip cbor %d %d nil - M{s6b31=I%d:%s,s6b32=I%d:%s}", aid, mp, tm, vs[i], tm, vs[j])
+				}
+			}
+		}
+	}
 	// foreign CBOR: registered and unregistered tags on every item kind, into an untyped slot and into typed slots
 	items := []string{"00", "20", "40", "4101", "60", "6161", "623432", "80", "8101", "a0", "a1617801", "a26178016179616b", "f4", "f6", "fb3ff8000000000000", "9fff", "bfff", "420102", "a1617360", "a161736161"}
 	tags := []uint64{0, 23, 24, 25, 100, 1100, 2100, 65536, 1 << 32}
 	ifaceT := tid(reflect.TypeOf((*interface{})(nil)).Elem())
-	for _, aid := range []int{0, 2, 3} {
+	for _, aid := range []int{0, 1, 2, 3} {
 		for _, tg := range tags {
 			for _, it := range items {
 				hx := fmt.Sprintf("%x", headBytes(0xc0, tg, 0)) + it
